@@ -34,6 +34,15 @@ def run_case(wos, ops, strict, mode, immediate):
     return term, ops, steps, finals, ssteps
 
 
+def listener_problems(wos, ops, finals):
+    out = []
+    for k, f in enumerate(finals):
+        want = ['_thread'] if any(o[0] == 'connect' and o[1] == k for o in ops) and not wos[k] else []
+        if f['bg'] != want:
+            out.append('host %d started background tasks %r, expected %r' % (k, f['bg'], want))
+    return out
+
+
 def classify(wos, ops, steps, immediate):
     """(non-trivial key or None, labels for the distribution)."""
     owner = {}
@@ -126,6 +135,10 @@ def batch(chk, name, rng, n, knobs_list, modes=('sync', 'async')):
                 except Exception as e:
                     chk.broken_obligation('driver error (%s, %s): %r' % (mode, ops[:6], e))
                     continue
+                # the listener must have been requested (exactly once) by every server that accepted a transport
+                for msg in listener_problems(wos, ops2, finals):
+                    chk.violation('c07-%s-listener-start' % mode, msg,
+                                  {'py': repr((wos, ops2, strict, mode, immediate))})
                 terms.append(term)
                 meta.append((wos, ops2, strict, mode, immediate, steps))
                 key = classify(wos, ops2, steps, immediate)
@@ -172,7 +185,7 @@ def run(chk):
                        'callbacks are used as supported: addressed to one client by its own sid',
                        'ack ids are opaque to clients: deliveries are compared with ack ids hidden']
     chk.prove(targets=['Check/C07Check.v'])
-    n = 220 if chk.thorough else 36
+    n = 700 if chk.thorough else 36
     ks = knob_sets(chk.thorough)
     bad = batch(chk, 'c07', rng, n, ks)
     if bad and not any(code & 2 for _, code in bad):
@@ -216,4 +229,7 @@ def replay(chk, data):
         print(o, '=>', effs, '| single:', seffs)
     for f in finals:
         print(f)
-    return 0 if code == 0 and not errors else 1
+    lp = listener_problems(wos, ops, finals)
+    for msg in lp:
+        print('listener:', msg)
+    return 0 if code == 0 and not errors and not lp else 1
